@@ -47,12 +47,28 @@ def const_spec(rng, kind, bits, level):
     return {'kind': kind, 'bits': bits, 'level': level, 'cnt': {i: v for i in range(bits)}}
 
 
+NONDYADIC_VALUES = [0.1, 1.0 / 3, 2.7, 0.3, 1.7, 1e-3, 12.75, 0.7, 1e3 + 0.1]
+
+
+def NONDYADIC(rng):
+    return Fraction(rng.choice(NONDYADIC_VALUES))
+
+
 def rand_fp_pair(rng, allow):
     """A pair of fingerprint specs of equal length and a class label."""
     cls = rng.choice(['random', 'random', 'random', 'related', 'related', 'equal', 'subset', 'empty_one', 'empty_both',
-                      'constant', 'mixed_kind', 'explicit_zero', 'allzero_count'])
-    if cls in ('mixed_kind', 'explicit_zero', 'allzero_count') and not allow.get(cls, True):
-        cls = 'random'
+                      'constant', 'mixed_kind', 'explicit_zero', 'allzero_count', 'nondyadic_float', 'nondyadic_float'])
+    if cls == 'nondyadic_float':
+        # float fingerprints whose values are not exactly representable sums: rounding in dot products, norms, means
+        bits = rng.choice([8, 16, 16, 32, 64, 1024, 2 ** 32])
+        la, lb = rng.choice([-1, 0, None]), rng.choice([-1, 5, None])
+        a = fpgen.rand_spec(rng, kind='KFloat', bits=bits, level=la, named=False)
+        b = fpgen.rand_spec(rng, kind=rng.choice(['KFloat', 'KFloat', 'KCount', 'KBit']), bits=bits, level=lb, named=False,
+                            like=a if rng.random() < 0.6 else None)
+        for sp in (a, b):
+            if sp['kind'] == 'KFloat':
+                sp['cnt'] = {i: NONDYADIC(rng) for i in sp['cnt']}
+        return cls, a, b
     bits = rng.choice([4, 4, 8, 8, 16, 16, 32, 64, 64, 1024, 2 ** 20, 2 ** 32, 2 ** 32])
     kind = rng.choice(fpgen.KINDS)
     la, lb = rng.choice([-1, -1, 0, 1, 5, None]), rng.choice([-1, -1, 0, 1, 5, None])
@@ -152,6 +168,41 @@ def db_obs(db):
 def _kind_of_class(c):
     from e3fp.fingerprint.fprint import Fingerprint, CountFingerprint, FloatFingerprint
     return 'KFloat' if c is FloatFingerprint else 'KCount' if c is CountFingerprint else 'KBit'
+
+
+def fp_from_json(d):
+    """fpgen.obs_json dict -> (observation, implementation object)"""
+    o = dict(d)
+    o['cnt'] = [(int(k), Fraction(v)) for k, v in d['cnt']]
+    spec = {'kind': o['kind'], 'bits': o['bits'], 'level': o['level']}
+    if o.get('name'):
+        spec['name'] = o['name']
+    if o['kind'] == 'KBit':
+        spec['idx'] = list(o['idx'])
+    else:
+        spec['cnt'] = dict(o['cnt'])
+    return spec
+
+
+def db_from_json(d):
+    """db_json dict -> a builder of an implementation database with exactly that CSR storage"""
+    o = dict(d)
+    o['rows'] = [[(int(i), Fraction(v)) for i, v in r] for r in d['rows']]
+
+    def build():
+        from e3fp.fingerprint.db import FingerprintDatabase
+        from scipy.sparse import csr_matrix
+        C = fpgen.classes()[o['kind']]
+        data, indices, indptr = [], [], [0]
+        for r in o['rows']:
+            for i, v in r:
+                indices.append(i)
+                data.append(float(v))
+            indptr.append(len(indices))
+        B = csr_matrix((np.array(data, dtype=float).astype(C.vector_dtype), np.array(indices, dtype=np.int64),
+                        np.array(indptr, dtype=np.int64)), shape=(len(o['rows']), o['width']))
+        return FingerprintDatabase.from_array(B, fp_names=[None] * len(o['rows']), fp_type=C, level=o['level'])
+    return o, build
 
 
 def rows_lit(rows):
@@ -269,7 +320,7 @@ VALUES = {
     'bool': lambda rng: Fraction(1),
     'int': lambda rng: Fraction(rng.choice([1, 1, 1, 2, 3, 7])),
     'float': lambda rng: Fraction(rng.choice([1, 2, 3, 5, 9, 250]), rng.choice([1, 1, 2, 4, 8])),
-    'floatx': lambda rng: Fraction(rng.choice([0.1, 0.3, 1.7, 2.5, 1.0 / 3, 12.75, 1e-3])),
+    'floatx': lambda rng: Fraction(rng.choice([0.1, 0.3, 1.7, 2.7, 1.0 / 3, 12.75, 1e-3, 0.7, 1e3 + 0.1])),
     'binfloat': lambda rng: Fraction(1),
 }
 
@@ -322,7 +373,7 @@ def to_csr_spec(rng, w, dtype, vecs, noncanonical=True, dups=False):
 def rand_arr_pair(rng, allow):
     """(class label, X spec, Y spec or None)"""
     w = rng.choice([1, 2, 3, 4, 4, 5, 6, 8, 8, 12, 16, 64])
-    vkind = rng.choice(['bool', 'bool', 'binfloat', 'int', 'int', 'float', 'float', 'floatx'])
+    vkind = rng.choice(['bool', 'bool', 'binfloat', 'int', 'int', 'float', 'float', 'floatx', 'floatx'])
     if vkind in ('int', 'float', 'floatx') and not allow.get('nonbinary_array', True) and rng.random() < 0.0:
         vkind = 'bool'
     dtype = {'bool': 'bool', 'binfloat': 'float', 'int': 'int', 'float': 'float', 'floatx': 'float'}[vkind]
